@@ -223,8 +223,20 @@ example : bodiesEquiv (getterCtx (Base.new 127))
     (.bin .ne (.bin .and (.bin .shr (.var .raw) (usz 125)) (one .u128)) (.lit .u128 0))
     (.bin .ne (.bin .and (.var .raw) (.bin .shl (one .u128) (usz 126))) (.lit .u128 0)) = false := by decide +kernel
 
-/-- a setter written with `+` instead of `|` between the cleared register and the new bits (disjoint by
-    construction) is not expressible bit by bit: no answer, never "equal" -/
+/-- the outermost `|` of a setter body (under the index assertion and the `let`s) written as `+` -/
+def plusForOr : Expr → Expr
+  | .assertE c b => .assertE c (plusForOr b)
+  | .letE v e b => .letE v e (plusForOr b)
+  | .bin .or x y => .bin .add x y
+  | e => e
+
+/-- `(raw & !mask) + (value << lo)` for `(raw & !mask) | (value << lo)`: the two summands are never both non-zero in one
+    position, so the sum cannot carry – accepted (array setter with gaps, every index) -/
+theorem arr_setter_plus : ∀ m, setterBody (Base.new 24) Ex.arr = some m →
+    plusForOr m ≠ m ∧ bodiesEquiv (setterCtx (Base.new 24) Ex.arr) (plusForOr m) m = true := by
+  intro m h; injection h with h; subst h; decide +kernel
+
+/-- … whereas a sum that can carry has no normal form: no answer, never "equal" -/
 example : nf { rawTy := .u8 } ({ rawTy := .u8 } : Ctx).init (.bin .add (.var .raw) (.var .raw)) = none := by decide +kernel
 
 end Bb.TV
